@@ -80,6 +80,34 @@ def splitBar (toks : List String) : List (List String) :=
 
 def dimArg (d : Int) : Nat := if d > 0 then d.toNat else 0
 
+/-- all vectors of dimension d over Z/2^k, first coordinate slowest (the order of itertools.product) -/
+def allVectors (k : Nat) : Nat → List (List Int)
+  | 0 => [[]]
+  | d+1 => (List.range (2 ^ k)).flatMap fun c => (allVectors k d).map (Int.ofNat c :: ·)
+
+def digestMod : Nat := 2 ^ 61 - 1
+/-- rolling digest of a sequence of results (ring, dimension, coefficients of each) -/
+def digestStep (h : Nat) (size : Nat) (l : List Int) : Nat :=
+  let h1 := (h * 31 + size + 1000 * l.length + 7) % digestMod
+  l.foldl (fun acc c => (acc * 31 + c.toNat + 3) % digestMod) h1
+
+/-- `poly.exh op x dy`: x op y for every y of dimension dy over the ring of x, digested -/
+def exhModel (o : Poly.BinOp) (x : Poly) (dy : Nat) : Option Nat :=
+  (allVectors x.size dy).foldl (fun acc y =>
+    match acc, Poly.binop o x ⟨y, x.size⟩ with
+    | some h, .ok r => some (digestStep h r.size r.ival)
+    | _, _ => none) (some 0)
+
+def exhSpec (o : Poly.BinOp) (x : Poly) (dy : Nat) : Nat :=
+  (allVectors x.size dy).foldl (fun h y =>
+    let r := match o with
+      | .add => Spec.Poly.add x.size x.ival y
+      | .sub => Spec.Poly.sub x.size x.ival y
+      | .and => Spec.Poly.band x.ival y
+      | .or => Spec.Poly.bor x.ival y
+      | .xor => Spec.Poly.bxor x.ival y
+    digestStep h x.size r) 0
+
 /-- (model, spec) -/
 def both (op : String) (args : List String) : Option (String × String) :=
   match op, args with
@@ -120,6 +148,13 @@ def both (op : String) (args : List String) : Option (String × String) :=
         | .or => fmtSpec x.size (Spec.Poly.bor x.ival y.ival)
         | .xor => fmtSpec x.size (Spec.Poly.bxor x.ival y.ival)
       pure (m, sp a b ++ ";" ++ sp b a ++ obs)
+  | "poly.exh", [o, x, dy] => do
+      -- the second field of the implementation side is the digest of the plugin's own reference; the model has no
+      -- second opinion, it repeats its digest
+      let o ← parseOp? o; let x ← parsePoly? x; let dy ← parseNat? dy
+      let m := match exhModel o x dy with | some h => s!"{h};{h}" | none => "ERR"
+      let sp := exhSpec o x dy
+      pure (m, s!"{sp};{sp}")
   | "poly.neg", [a] => do
       let a ← parsePoly? a
       pure (fmtPoly a.neg ++ ";" ++ fmtPoly a, fmtSpec a.size (Spec.Poly.neg a.size a.ival) ++ ";" ++ fmtPoly a)
